@@ -68,6 +68,9 @@ inductive Ty where
   | either (ts : List Ty)
   | vec (t : Ty)
   | any
+  /-- `[T; n]` (values are `View.tuple`: `ArrayState` mounts, rebuilds and falls through exactly
+  like a tuple whose members all have type `t`; `n = 0` is a view without any DOM node) -/
+  | arr (n : Nat) (t : Ty)
   deriving Repr, Inhabited
 
 inductive View where
@@ -107,6 +110,7 @@ def Ty.beq : Ty → Ty → Bool
   | .either l1, .either l2 => Ty.beqList l1 l2
   | .vec a, .vec b => Ty.beq a b
   | .any, .any => true
+  | .arr n a, .arr m b => n == m && Ty.beq a b
   | _, _ => false
 def Ty.beqList : List Ty → List Ty → Bool
   | [], [] => true
@@ -151,19 +155,63 @@ def nodupS : List String → Bool
   | a :: as => !as.contains a && nodupS as
 
 mutual
+/-- every value of the type renders at least one DOM node (placeholders count): what the OLD
+branch of a switch (`Either`, `Option`, `AnyView`) needs so that `insert_before_this` finds a
+position; the only node-less views are `[T; 0]` and tuples / arrays made of node-less members -/
+def Ty.nodeful : Ty → Bool
+  | .text => true
+  | .unit => true
+  | .elem _ _ _ => true
+  | .tuple ts => Ty.nodefulAny ts
+  | .opt t => Ty.nodeful t
+  | .either ts => Ty.nodefulAll ts
+  | .vec _ => true
+  | .any => true
+  | .arr n t => decide (1 ≤ n) && Ty.nodeful t
+def Ty.nodefulAny : List Ty → Bool
+  | [] => false
+  | t :: ts => Ty.nodeful t || Ty.nodefulAny ts
+def Ty.nodefulAll : List Ty → Bool
+  | [] => true
+  | t :: ts => Ty.nodeful t && Ty.nodefulAll ts
+end
+
+mutual
 /-- the type is one tachys can express: tuples have an element, `Either` at least two branches,
 void elements have no children, and an element names every `Attr<K, _>` key once (several
 `class` / `style` items are allowed) -/
+def Ty.shapeOk : Ty → Bool
+  | .text => true
+  | .unit => true
+  | .elem tag as c =>
+    nodupS (namedKeys as) && Ty.shapeOk c && (!isVoid tag || (match c with | .unit => true | _ => false))
+  | .tuple ts => !ts.isEmpty && Ty.shapeOkList ts
+  | .opt t => Ty.shapeOk t
+  | .either ts => decide (2 ≤ ts.length) && Ty.shapeOkList ts
+  | .vec t => Ty.shapeOk t
+  | .any => true
+  | .arr _ t => Ty.shapeOk t
+def Ty.shapeOkList : List Ty → Bool
+  | [] => true
+  | t :: ts => Ty.shapeOk t && Ty.shapeOkList ts
+end
+
+mutual
+/-- `shapeOk`, and every branch that a rebuild may have to *replace* (the branches of `Either` /
+`EitherOfN`, the content of `Option`) is `nodeful`: replacing goes through
+`old.insert_before_this(new)`, which has nothing to hold on to when the old branch has no node
+(finding F-C03-6, class `nodeless-old-branch`) -/
 def Ty.wf : Ty → Bool
   | .text => true
   | .unit => true
   | .elem tag as c =>
     nodupS (namedKeys as) && Ty.wf c && (!isVoid tag || (match c with | .unit => true | _ => false))
   | .tuple ts => !ts.isEmpty && Ty.wfList ts
-  | .opt t => Ty.wf t
-  | .either ts => decide (2 ≤ ts.length) && Ty.wfList ts
+  | .opt t => Ty.wf t && Ty.nodeful t
+  | .either ts => decide (2 ≤ ts.length) && Ty.wfList ts && Ty.nodefulAll ts
   | .vec t => Ty.wf t
   | .any => true
+  | .arr _ t => Ty.wf t
 def Ty.wfList : List Ty → Bool
   | [] => true
   | t :: ts => Ty.wf t && Ty.wfList ts
@@ -175,12 +223,13 @@ def hasTy : View → Ty → Bool
   | .unit, .unit => true
   | .elem tag as c, .elem tag' ats ct => tag == tag' && as.map AttrVal.ty == ats && hasTy c ct
   | .tuple vs, .tuple ts => hasTyList vs ts
+  | .tuple vs, .arr n t => vs.length == n && hasTyAll vs t
   | .onone, .opt _ => true
   | .osome v, .opt t => hasTy v t
   | .either n i v, .either ts =>
     n == ts.length && (match ts[i]? with | some t => hasTy v t | none => false)
   | .vec vs, .vec t => hasTyAll vs t
-  | .any ty v, .any => Ty.wf ty && hasTy v ty
+  | .any ty v, .any => Ty.wf ty && Ty.nodeful ty && hasTy v ty
   | _, _ => false
 def hasTyList : List View → List Ty → Bool
   | [], [] => true
@@ -189,6 +238,31 @@ def hasTyList : List View → List Ty → Bool
 def hasTyAll : List View → Ty → Bool
   | [], _ => true
   | v :: vs, t => hasTy v t && hasTyAll vs t
+end
+
+mutual
+/-- `hasTy` without the `nodeful` requirements (what the correspondence driver accepts: the
+node-less old branches are run too, as a known-finding class) -/
+def hasShape : View → Ty → Bool
+  | .text _, .text => true
+  | .unit, .unit => true
+  | .elem tag as c, .elem tag' ats ct => tag == tag' && as.map AttrVal.ty == ats && hasShape c ct
+  | .tuple vs, .tuple ts => hasShapeList vs ts
+  | .tuple vs, .arr n t => vs.length == n && hasShapeAll vs t
+  | .onone, .opt _ => true
+  | .osome v, .opt t => hasShape v t
+  | .either n i v, .either ts =>
+    n == ts.length && (match ts[i]? with | some t => hasShape v t | none => false)
+  | .vec vs, .vec t => hasShapeAll vs t
+  | .any ty v, .any => Ty.shapeOk ty && hasShape v ty
+  | _, _ => false
+def hasShapeList : List View → List Ty → Bool
+  | [], [] => true
+  | v :: vs, t :: ts => hasShape v t && hasShapeList vs ts
+  | _, _ => false
+def hasShapeAll : List View → Ty → Bool
+  | [], _ => true
+  | v :: vs, t => hasShape v t && hasShapeAll vs t
 end
 
 /-- `v` is a value of the (well-formed) view type `ty` -/
@@ -669,6 +743,22 @@ def render : View → List Tree
 def renderList : List View → List Tree
   | [] => []
   | v :: vs => render v ++ renderList vs
+end
+
+mutual
+/-- some replaceable branch of the view (the selected branch of an `Either` / `EitherOfN`, the
+content of a `Some`, the content of an `AnyView`) renders no DOM node: the class of F-C03-6 -/
+def View.nodelessBranch : View → Bool
+  | .elem _ _ c => View.nodelessBranch c
+  | .tuple vs => View.nodelessBranchList vs
+  | .osome v => (render v).isEmpty || View.nodelessBranch v
+  | .either _ _ v => (render v).isEmpty || View.nodelessBranch v
+  | .vec vs => View.nodelessBranchList vs
+  | .any _ v => (render v).isEmpty || View.nodelessBranch v
+  | _ => false
+def View.nodelessBranchList : List View → Bool
+  | [] => false
+  | v :: vs => View.nodelessBranch v || View.nodelessBranchList vs
 end
 
 end Leptos.View
